@@ -5,6 +5,7 @@ import (
 	"errors"
 	"fmt"
 	"strings"
+	"sync"
 	"testing"
 
 	"github.com/ava-labs/avalanchego/database"
@@ -393,5 +394,52 @@ func TestC04(t *testing.T) {
 		}
 		judge(c)
 	}
+	c04ConcurrentCommits(r)
 	r.Finish(1000)
+}
+
+// c04ConcurrentCommits: views of one block-level TState are committed from different goroutines
+// (the executor commits non-conflicting transactions in parallel) while others read through it;
+// afterwards the block-level state must hold exactly what the views published.
+func c04ConcurrentCommits(r *kit.Run) {
+	ctx := context.Background()
+	rounds := r.N(150, 3000)
+	for round := 0; round < rounds; round++ {
+		ts := tstate.New(16)
+		bs := state.ImmutableStorage{}
+		const G, K = 8, 6
+		var wg sync.WaitGroup
+		for g := 0; g < G; g++ {
+			wg.Add(1)
+			go func(g int) {
+				defer wg.Done()
+				for k := 0; k < K; k++ {
+					v := ts.NewView(state.CompletePermissions, bs, 4)
+					key := keys.EncodeChunks([]byte{0x40, byte(g), byte(k)}, 1)
+					_ = v.Insert(ctx, key, []byte{byte(g), byte(k), byte(round)})
+					// read a key another goroutine may be publishing right now (block-level fallback)
+					_, _ = v.GetValue(ctx, keys.EncodeChunks([]byte{0x40, byte((g + 1) % G), byte(k)}, 1))
+					v.Commit()
+				}
+			}(g)
+		}
+		wg.Wait()
+		r.Eval()
+		changed := ts.ChangedKeys()
+		if len(changed) != G*K || ts.OpIndex() != G*K {
+			r.Violation("C04/concurrent-commits-lost", map[string]int{"published": len(changed), "ops": ts.OpIndex(), "expected": G * K},
+				"%d views committed one new key each from %d goroutines, the block-level state holds %d keys and %d ops", G*K, G, len(changed), ts.OpIndex())
+			return
+		}
+		for g := 0; g < G; g++ {
+			for k := 0; k < K; k++ {
+				key := string(keys.EncodeChunks([]byte{0x40, byte(g), byte(k)}, 1))
+				if v, ok := changed[key]; !ok || !v.HasValue() || len(v.Value()) != 3 || v.Value()[0] != byte(g) || v.Value()[1] != byte(k) {
+					r.Violation("C04/concurrent-commits-lost", map[string]int{"g": g, "k": k}, "key of goroutine %d/%d missing or wrong after concurrent commits", g, k)
+					return
+				}
+			}
+		}
+		r.Count("concurrent_commit_rounds", 1)
+	}
 }
